@@ -3,6 +3,7 @@ import Ivg.Lemmas.ArcCount
 import Ivg.Gen.Tie.RendererFields
 import Ivg.Gen.Tie.Code.Transform
 import Ivg.Gen.Tie.Code.RenderRegs
+import Ivg.Gen.Tie.Code.Retarget
 import Ivg.Obligations
 /-!
 # C06 — elliptical arcs (PARTIAL)
@@ -215,4 +216,8 @@ end Ivg.Props.C06
   Ivg.Gen.Tie.renderer_SetNReg_code_tie,
   Ivg.Gen.Tie.positiveInfinity_code_tie,
   Ivg.Gen.Tie.renderer_Reset_code_tie,
-  Ivg.Gen.Tie.renderer_Reset_code_tie_frame]
+  Ivg.Gen.Tie.renderer_Reset_code_tie_frame,
+  -- regenerated code (translator): SetRasterizer recomputes the transform from the current viewBox and the new rectangle
+  Ivg.Gen.Tie.rectangle_Empty_code_tie,
+  Ivg.Gen.Tie.renderer_SetRasterizer_code_tie,
+  Ivg.Gen.Tie.renderer_SetRasterizer_code_tie_frame]
